@@ -406,11 +406,13 @@ func (r *Rsvcb) MarshalText() (text []byte, err error) {
 	putdomtext(buf, r.dom)
 	buf.Write(NSEP)
 	// UnmarshalText drops one leading "*." of the target: put it back when the
-	// name that was kept still begins with one
-	if bytes.HasPrefix(r.tgtname, []byte("*.")) {
+	// text of the name that was kept still begins with one
+	tgt := new(bytes.Buffer)
+	putdomtext(tgt, r.tgtname)
+	if bytes.HasPrefix(tgt.Bytes(), []byte("*.")) {
 		buf.WriteString("*.")
 	}
-	putdomtext(buf, r.tgtname)
+	buf.Write(tgt.Bytes())
 	buf.Write(NSEP)
 	fmt.Fprintf(buf, "%d", r.ttl)
 	buf.Write(NSEP)
